@@ -1,2 +1,298 @@
+//! Signatures of the string-returning entry points, the invalidating operations, the static
+//! entry points and the iterator item types: receiver kind and lifetime class.
+
+use crate::{lean, parse_file, toks};
 use std::path::Path;
-pub fn emit(_src: &Path, _out: &mut String) {}
+use syn::{FnArg, GenericArgument, ImplItem, Item, PathArguments, ReturnType, TraitItem, Type};
+
+fn squash(s: &str) -> String {
+    s.chars().filter(|c| !c.is_whitespace()).collect()
+}
+
+fn sig_name(n: &str) -> Option<&'static str> {
+    Some(match n {
+        "resolve" => ".resolve",
+        "try_resolve" => ".tryResolve",
+        "resolve_unchecked" => ".resolveUnchecked",
+        "index" => ".index",
+        "iter" => ".iter",
+        "strings" => ".strings",
+        "into_iter" => ".intoIter",
+        "clear" => ".clear",
+        "into_reader" => ".intoReader",
+        "into_resolver" => ".intoResolver",
+        "try_clone_from" => ".tryCloneFrom",
+        "clone_from" => ".cloneFrom",
+        "get_or_intern" => ".getOrIntern",
+        "try_get_or_intern" => ".tryGetOrIntern",
+        "get_or_intern_static" => ".getOrInternStatic",
+        "try_get_or_intern_static" => ".tryGetOrInternStatic",
+        _ => return None,
+    })
+}
+
+fn owner_of(ty: &str) -> Option<String> {
+    let t = squash(ty);
+    let t = t.trim_start_matches('&');
+    let t = if t.starts_with('\'') { t.splitn(2, |c: char| !c.is_alphanumeric() && c != '\'' && c != '_').nth(1).unwrap_or("") } else { t };
+    let base = t.split('<').next().unwrap_or("");
+    Some(
+        match base {
+            "Rodeo" => ".rodeo",
+            "ThreadedRodeo" => ".threaded",
+            "RodeoReader" => ".reader",
+            "RodeoResolver" => ".resolver",
+            _ => return None,
+        }
+        .to_string(),
+    )
+}
+
+/// All lifetimes mentioned in a type; `elided` is set when a reference has no lifetime or `'_` occurs.
+fn lifetimes(t: &Type, out: &mut Vec<String>, elided: &mut bool, has_ref_or_lt: &mut bool) {
+    match t {
+        Type::Reference(r) => {
+            *has_ref_or_lt = true;
+            match &r.lifetime {
+                Some(l) if l.ident != "_" => out.push(l.ident.to_string()),
+                _ => *elided = true,
+            }
+            lifetimes(&r.elem, out, elided, has_ref_or_lt);
+        }
+        Type::Path(p) => {
+            for seg in &p.path.segments {
+                if let PathArguments::AngleBracketed(a) = &seg.arguments {
+                    for g in &a.args {
+                        match g {
+                            GenericArgument::Lifetime(l) => {
+                                *has_ref_or_lt = true;
+                                if l.ident == "_" {
+                                    *elided = true
+                                } else {
+                                    out.push(l.ident.to_string())
+                                }
+                            }
+                            GenericArgument::Type(t) => lifetimes(t, out, elided, has_ref_or_lt),
+                            _ => {}
+                        }
+                    }
+                }
+            }
+        }
+        Type::Tuple(t) => {
+            for e in &t.elems {
+                lifetimes(e, out, elided, has_ref_or_lt)
+            }
+        }
+        Type::Paren(p) => lifetimes(&p.elem, out, elided, has_ref_or_lt),
+        Type::Group(g) => lifetimes(&g.elem, out, elided, has_ref_or_lt),
+        _ => {}
+    }
+}
+
+/// (recv, receiver lifetime if named, receiver is a reference)
+fn receiver(sig: &syn::Signature, self_ty_lifetime: Option<String>) -> (&'static str, Option<String>, bool) {
+    match sig.inputs.first() {
+        Some(FnArg::Receiver(r)) => {
+            if let Some((_, lt)) = &r.reference {
+                let name = lt.as_ref().filter(|l| l.ident != "_").map(|l| l.ident.to_string());
+                (if r.mutability.is_some() { ".refMut" } else { ".ref" }, name, true)
+            } else if squash(&toks(&r.ty)).starts_with("Box<") {
+                (".boxSelf", None, false)
+            } else {
+                // `self` by value; for `impl Trait for &'a T` the value *is* a reference with lifetime 'a
+                (".val", self_ty_lifetime.clone(), self_ty_lifetime.is_some())
+            }
+        }
+        _ => (".none", None, false),
+    }
+}
+
+fn classify(ret: &ReturnType, recv_lt: &Option<String>, recv_is_ref: bool, assoc_output_is_str: bool) -> &'static str {
+    let ReturnType::Type(_, t) = ret else { return ".noStr" };
+    let mut lts = Vec::new();
+    let mut elided = false;
+    let mut has = false;
+    lifetimes(t, &mut lts, &mut elided, &mut has);
+    let _ = assoc_output_is_str;
+    if !has {
+        return ".noStr";
+    }
+    if lts.iter().any(|l| l == "static") {
+        return ".static_";
+    }
+    // elided output lifetimes take the receiver's lifetime when there is a `&self` receiver
+    let ok_named = lts.iter().all(|l| Some(l) == recv_lt.as_ref());
+    if recv_is_ref && ok_named {
+        ".self_"
+    } else {
+        ".free"
+    }
+}
+
+fn first_str_arg(sig: &syn::Signature) -> String {
+    for a in &sig.inputs {
+        if let FnArg::Typed(t) = a {
+            let s = squash(&toks(&t.ty));
+            if s == "&'staticstr" {
+                return "(some true)".into();
+            }
+            if s == "&str" || s == "T" || s.ends_with("str") {
+                return "(some false)".into();
+            }
+        }
+    }
+    "none".into()
+}
+
+fn self_ty_ref_lifetime(t: &Type) -> Option<String> {
+    if let Type::Reference(r) = t {
+        return r.lifetime.as_ref().map(|l| l.ident.to_string());
+    }
+    None
+}
+
+pub fn emit(src: &Path, out: &mut String) {
+    let mut sigs = Vec::new();
+    let mut items_out = Vec::new();
+    for f in ["rodeo.rs", "threaded_rodeo.rs", "reader.rs", "resolver.rs", "util.rs"] {
+        let path = src.join(f);
+        if !path.exists() {
+            continue;
+        }
+        let file = parse_file(&path);
+        for item in &file.items {
+            let Item::Impl(imp) = item else { continue };
+            let self_s = toks(&imp.self_ty);
+            let trait_name = imp.trait_.as_ref().map(|(_, p, _)| p.segments.last().map(|s| s.ident.to_string()).unwrap_or_default());
+            // iterator item types
+            if trait_name.as_deref() == Some("Iterator") {
+                let base = squash(&self_s);
+                let is_iter = base.starts_with("Iter<");
+                let is_strings = base.starts_with("Strings<");
+                if is_iter || is_strings {
+                    let threaded = f == "threaded_rodeo.rs";
+                    let struct_lts: Vec<String> = match &*imp.self_ty {
+                        Type::Path(p) => match &p.path.segments.last().unwrap().arguments {
+                            PathArguments::AngleBracketed(a) => a
+                                .args
+                                .iter()
+                                .filter_map(|g| if let GenericArgument::Lifetime(l) = g { Some(l.ident.to_string()) } else { None })
+                                .collect(),
+                            _ => Vec::new(),
+                        },
+                        _ => Vec::new(),
+                    };
+                    for it in &imp.items {
+                        if let ImplItem::Type(t) = it {
+                            if t.ident == "Item" {
+                                let mut lts = Vec::new();
+                                let mut elided = false;
+                                let mut has = false;
+                                lifetimes(&t.ty, &mut lts, &mut elided, &mut has);
+                                let class = if lts.iter().any(|l| l == "static") {
+                                    ".static_"
+                                } else if has && !elided && lts.iter().all(|l| struct_lts.contains(l)) {
+                                    ".self_"
+                                } else if !has {
+                                    ".noStr"
+                                } else {
+                                    ".free"
+                                };
+                                items_out.push(format!(
+                                    "{{ owner := .iterType {} {}, item := {} }}",
+                                    lean::boolean(threaded),
+                                    lean::boolean(is_strings),
+                                    class
+                                ));
+                            }
+                        }
+                    }
+                }
+                continue;
+            }
+            let inner_s = match &*imp.self_ty {
+                Type::Reference(r) => toks(&r.elem),
+                _ => self_s.clone(),
+            };
+            let Some(owner) = owner_of(&inner_s) else { continue };
+            // only inherent impls and the std traits that return strings / invalidate
+            if let Some(tn) = &trait_name {
+                if !matches!(tn.as_str(), "Index" | "IntoIterator" | "Clone") {
+                    continue;
+                }
+            }
+            let self_lt = self_ty_ref_lifetime(&imp.self_ty);
+            for it in &imp.items {
+                let ImplItem::Fn(func) = it else { continue };
+                let Some(name) = sig_name(&func.sig.ident.to_string()) else { continue };
+                let (recv, recv_lt, recv_ref) = receiver(&func.sig, self_lt.clone());
+                // `IntoIterator for &'a T`: the item lifetime is in `type Item`, the fn returns `Self::IntoIter`
+                let ret = if trait_name.as_deref() == Some("IntoIterator") {
+                    let mut class = ".free";
+                    for it2 in &imp.items {
+                        if let ImplItem::Type(t) = it2 {
+                            if t.ident == "Item" {
+                                let mut lts = Vec::new();
+                                let mut elided = false;
+                                let mut has = false;
+                                lifetimes(&t.ty, &mut lts, &mut elided, &mut has);
+                                class = if lts.iter().any(|l| l == "static") {
+                                    ".static_"
+                                } else if has && !elided && lts.iter().all(|l| Some(l) == self_lt.as_ref()) {
+                                    ".self_"
+                                } else {
+                                    ".free"
+                                };
+                            }
+                        }
+                    }
+                    class
+                } else if trait_name.as_deref() == Some("Index") {
+                    // `-> &Self::Output` with `type Output = str`
+                    classify(&func.sig.output, &recv_lt, recv_ref, true)
+                } else {
+                    classify(&func.sig.output, &recv_lt, recv_ref, false)
+                };
+                sigs.push(format!(
+                    "{{ owner := {}, name := {}, recv := {}, strArgStatic := {}, ret := {}, isUnsafe := {} }}",
+                    owner,
+                    name,
+                    recv,
+                    first_str_arg(&func.sig),
+                    ret,
+                    lean::boolean(func.sig.unsafety.is_some())
+                ));
+            }
+        }
+    }
+    // trait definitions of the interface layer
+    let file = parse_file(&src.join("interface/mod.rs"));
+    for item in &file.items {
+        let Item::Trait(tr) = item else { continue };
+        let owner = match tr.ident.to_string().as_str() {
+            "Resolver" => ".traitResolver",
+            "Reader" => ".traitReader",
+            "Interner" => ".traitInterner",
+            _ => continue,
+        };
+        for it in &tr.items {
+            let TraitItem::Fn(func) = it else { continue };
+            let Some(name) = sig_name(&func.sig.ident.to_string()) else { continue };
+            let (recv, recv_lt, recv_ref) = receiver(&func.sig, None);
+            sigs.push(format!(
+                "{{ owner := {}, name := {}, recv := {}, strArgStatic := {}, ret := {}, isUnsafe := {} }}",
+                owner,
+                name,
+                recv,
+                first_str_arg(&func.sig),
+                classify(&func.sig.output, &recv_lt, recv_ref, false),
+                lean::boolean(func.sig.unsafety.is_some())
+            ));
+        }
+    }
+    out.push_str("/-- Signatures of the entry points the lifetime property is about. -/\n");
+    out.push_str(&format!("def fnSigs : List FnSig := {}\n\n", lean::list(&sigs)));
+    out.push_str("/-- `type Item` of the iterator types. -/\n");
+    out.push_str(&format!("def iterItems : List IterItem := {}\n\n", lean::list(&items_out)));
+}
